@@ -46,7 +46,7 @@ func init() {
 		Run: runClosureState,
 	})
 	register(&Rule{
-		ID: "C20.builder-copy", Prop: "C20", Also: []string{"C05"}, Floor: 6, Controls: 1,
+		ID: "C20.builder-copy", Prop: "C20", Also: []string{"C05"}, Floor: 4, Controls: 1,
 		Doc: "a refinement record is never shared between a value and a mutable builder: what is stored into unknownType.refinement is fresh, a copy() or another value's (immutable) record, never the builder's working object; what is stored into RefinementBuilder.wip is fresh or a copy(), never a value's record; every refinement copy() returns fresh memory",
 		Run: runBuilderCopy,
 	})
@@ -56,12 +56,12 @@ func init() {
 		Run: runSetStorage,
 	})
 	register(&Rule{
-		ID: "C20.no-alias-out", Prop: "C20", Floor: 25, Controls: 1,
+		ID: "C20.no-alias-out", Prop: "C20", Floor: 20, Controls: 1,
 		Doc: "an exported function whose result is a Go reference (pointer, slice, map) does not hand out payload memory of a value or type without a copy; the documented read-only accessors are tabled by symbol",
 		Run: runNoAliasOut,
 	})
 	register(&Rule{
-		ID: "C20.no-retention-in", Prop: "C20", Floor: 25, Controls: 1,
+		ID: "C20.no-retention-in", Prop: "C20", Floor: 20, Controls: 1,
 		Doc: "an exported function of package cty does not store a caller-owned slice, map or pointer parameter itself into the payload of the value or type it builds (it stores a copy); documented ownership transfers are tabled by symbol",
 		Run: runNoRetentionIn,
 	})
